@@ -84,7 +84,7 @@ Lemma m_round_trap_iff x : i32 x -> (m_round x <> None <-> x <= 2147483615).
 Proof.
   intros Hx. unfold m_round, add32. unfold i32 in *. chk32 (x + 32).
   - rewrite m_floor_spec. split; [intros _; unfold i32 in *; lia|discriminate].
-  - split; [congruence|intros; exfalso; apply Hc; unfold i32; lia].
+  - split; [intros Hnn; exfalso; apply Hnn; reflexivity|intros; exfalso; apply Hc; unfold i32; lia].
 Qed.
 Lemma m_round_some x : i32 x -> x <= 2147483615 -> m_round x = Some ((x + 32) / 64 * 64).
 Proof.
@@ -95,7 +95,7 @@ Lemma m_ceil_trap_iff x : i32 x -> (m_ceil x <> None <-> x <= 2147483584).
 Proof.
   intros Hx. unfold m_ceil, add32. unfold i32 in *. chk32 (x + 63).
   - rewrite m_floor_spec. split; [intros _; unfold i32 in *; lia|discriminate].
-  - split; [congruence|intros; exfalso; apply Hc; unfold i32; lia].
+  - split; [intros Hnn; exfalso; apply Hnn; reflexivity|intros; exfalso; apply Hc; unfold i32; lia].
 Qed.
 Lemma m_ceil_some x : i32 x -> x <= 2147483584 -> m_ceil x = Some ((x + 63) / 64 * 64).
 Proof.
@@ -106,7 +106,7 @@ Lemma m_floor_pad_trap_iff x n : i32 n -> (m_floor_pad x n <> None <-> n <> -214
 Proof.
   intros Hn. unfold m_floor_pad, sub32. unfold i32 in *. chk32 (n - 1).
   - split; [unfold i32 in *; lia|discriminate].
-  - split; [congruence|intros; exfalso; apply Hc; unfold i32; lia].
+  - split; [intros Hnn; exfalso; apply Hnn; reflexivity|intros; exfalso; apply Hc; unfold i32; lia].
 Qed.
 Lemma m_round_pad_trap_iff x n : i32 x -> i32 n ->
   (m_round_pad x n <> None <-> i32 (x + Z.quot n 2) /\ n <> -2147483648).
@@ -114,7 +114,7 @@ Proof.
   intros Hx Hn. unfold m_round_pad. rewrite div32_some by lia. cbn [obind]. unfold add32.
   chk32 (x + Z.quot n 2).
   - rewrite (m_floor_pad_trap_iff _ n Hn). tauto.
-  - split; [congruence|tauto].
+  - split; [intros Hnn; exfalso; apply Hnn; reflexivity|tauto].
 Qed.
 Lemma m_round_pad32_some x : i32 x -> x <= 2147483631 ->
   m_round_pad x 32 = Some ((x + 16) / 32 * 32).
@@ -254,7 +254,7 @@ Proof.
     + assert (Hn : m_round d = None).
       { destruct (m_round d) eqn:Em; [|reflexivity]. exfalso.
         assert (m_round d <> None) by congruence. rewrite m_round_trap_iff in H by (unfold i32; lia). lia. }
-      rewrite Hn. cbn [obind]. split; [congruence|lia].
+      rewrite Hn. cbn [obind]. split; [intros Hnn; exfalso; apply Hnn; reflexivity|lia].
   - unfold neg32. chk32 (- d).
     + unfold i32 in *. destruct (Z_le_dec (- d) 2147483615).
       * rewrite m_round_some by (unfold i32; lia). cbn [obind].
@@ -262,8 +262,8 @@ Proof.
       * assert (Hn : m_round (- d) = None).
         { destruct (m_round (- d)) eqn:Em; [|reflexivity]. exfalso.
           assert (m_round (- d) <> None) by congruence. rewrite m_round_trap_iff in H by (unfold i32; lia). lia. }
-        rewrite Hn. cbn [obind]. split; [congruence|lia].
-    + split; [congruence|unfold i32 in *; lia].
+        rewrite Hn. cbn [obind]. split; [intros Hnn; exfalso; apply Hnn; reflexivity|lia].
+    + split; [intros Hnn; exfalso; apply Hnn; reflexivity|unfold i32 in *; lia].
 Qed.
 
 Lemma rs_half_grid_trap_iff d : i32 d -> (rs_half_grid d <> None <-> d <> -2147483648).
@@ -275,7 +275,7 @@ Proof.
     + unfold i32 in *. rewrite m_floor_spec. cbn [obind]. unfold add32.
       rewrite chk_s32_some by (unfold i32; lia). cbn [obind].
       rewrite chk_s32_some by (unfold i32; lia). cbn [obind]. split; [lia|discriminate].
-    + split; [congruence|unfold i32 in *; lia].
+    + split; [intros Hnn; exfalso; apply Hnn; reflexivity|unfold i32 in *; lia].
 Qed.
 
 Lemma rs_down_to_grid_trap_iff d : i32 d -> (rs_down_to_grid d <> None <-> d <> -2147483648).
@@ -285,7 +285,7 @@ Proof.
   - unfold neg32. chk32 (- d).
     + unfold i32 in *. rewrite m_floor_spec. cbn [obind].
       rewrite chk_s32_some by (unfold i32; lia). cbn [obind]. split; [lia|discriminate].
-    + split; [congruence|unfold i32 in *; lia].
+    + split; [intros Hnn; exfalso; apply Hnn; reflexivity|unfold i32 in *; lia].
 Qed.
 
 Lemma rs_up_to_grid_trap_iff d : i32 d -> (rs_up_to_grid d <> None <-> -2147483584 <= d <= 2147483584).
@@ -296,7 +296,7 @@ Proof.
     + assert (Hn : m_ceil d = None).
       { destruct (m_ceil d) eqn:Em; [|reflexivity]. exfalso.
         assert (m_ceil d <> None) by congruence. rewrite m_ceil_trap_iff in H by (unfold i32; lia). lia. }
-      rewrite Hn. cbn [obind]. split; [congruence|lia].
+      rewrite Hn. cbn [obind]. split; [intros Hnn; exfalso; apply Hnn; reflexivity|lia].
   - unfold neg32. chk32 (- d).
     + unfold i32 in *. destruct (Z_le_dec (- d) 2147483584).
       * rewrite m_ceil_some by (unfold i32; lia). cbn [obind].
@@ -304,8 +304,8 @@ Proof.
       * assert (Hn : m_ceil (- d) = None).
         { destruct (m_ceil (- d)) eqn:Em; [|reflexivity]. exfalso.
           assert (m_ceil (- d) <> None) by congruence. rewrite m_ceil_trap_iff in H by (unfold i32; lia). lia. }
-        rewrite Hn. cbn [obind]. split; [congruence|lia].
-    + split; [congruence|unfold i32 in *; lia].
+        rewrite Hn. cbn [obind]. split; [intros Hnn; exfalso; apply Hnn; reflexivity|lia].
+    + split; [intros Hnn; exfalso; apply Hnn; reflexivity|unfold i32 in *; lia].
 Qed.
 
 Lemma rs_double_grid_trap_iff d : i32 d -> (rs_double_grid d <> None <-> -2147483631 <= d <= 2147483631).
@@ -319,13 +319,13 @@ Proof.
   destruct (0 <=? d) eqn:E.
   - destruct (Z_le_dec d 2147483631).
     + rewrite m_round_pad32_some by (unfold i32; lia). cbn [obind]. split; [lia|discriminate].
-    + rewrite Hpad by (unfold i32; lia). cbn [obind]. split; [congruence|lia].
+    + rewrite Hpad by (unfold i32; lia). cbn [obind]. split; [intros Hnn; exfalso; apply Hnn; reflexivity|lia].
   - unfold neg32. chk32 (- d).
     + unfold i32 in *. destruct (Z_le_dec (- d) 2147483631).
       * rewrite m_round_pad32_some by (unfold i32; lia). cbn [obind].
         rewrite chk_s32_some by (unfold i32; lia). cbn [obind]. split; [lia|discriminate].
-      * rewrite Hpad by (unfold i32; lia). cbn [obind]. split; [congruence|lia].
-    + split; [congruence|unfold i32 in *; lia].
+      * rewrite Hpad by (unfold i32; lia). cbn [obind]. split; [intros Hnn; exfalso; apply Hnn; reflexivity|lia].
+    + split; [intros Hnn; exfalso; apply Hnn; reflexivity|unfold i32 in *; lia].
 Qed.
 
 (* --- super_round: the only writer of (threshold, phase, period) --- *)
@@ -606,7 +606,7 @@ Proof.
   intros Hc. unfold t_max_value_bitmap_len, addu64.
   destruct (Z_lt_dec c 18446744073709551615).
   - rewrite chk_u64_some by lia. cbn [obind]. split; [lia|discriminate].
-  - rewrite chk_u64_none by lia. cbn [obind]. split; [congruence|lia].
+  - rewrite chk_u64_none by lia. cbn [obind]. split; [intros Hnn; exfalso; apply Hnn; reflexivity|lia].
 Qed.
 Lemma no_trap_max_value_bitmap_len_u16 c : u16 c -> t_max_value_bitmap_len c <> None.
 Proof. intros H. apply max_value_bitmap_len_trap_iff; unfold u16 in H; lia. Qed.
